@@ -645,7 +645,7 @@ class Sim(object):
                     elif st["polled_parser"] > 3:
                         sig = "request-buffered-in-parser"
                     elif st["stalled_nofuture"] > 3:
-                        sig = "at-capacity-no-future-pending"
+                        sig = "at-capacity-no-future-pending" + self.reserve_tag()
                     if sig:
                         self.flagged.add(c.cid)
                         self.V("served-when-thread-free", "ready-connection-not-dispatched:" + sig,
@@ -654,12 +654,20 @@ class Sim(object):
                 self.ready_since.pop(c.cid, None)
                 self.ready_stats.pop(c.cid, None)
 
+    def reserve_tag(self):
+        """the known stall needs a full connection table; it is a different matter when the table is full because more idle keep-alive
+        connections are parked than worker_connections - threads (the slots the worker documents it keeps free for new clients)"""
+        parked = len([c for c in self.worker._keep if not c.sock.closed])
+        if parked > max(0, self.worker_connections - self.threads):
+            return ":more-idle-keep-alive-connections-than-worker_connections-minus-threads"
+        return ""
+
     def quiescent_check(self):
         w = self.worker
         open_ = self.open_conns()
         if open_:
             stuck = w.nr_conns >= self.worker_connections and not w.futures
-            self.V("returns-to-zero", "connections-left-open-after-clients-left" + (":at-capacity-no-future-pending" if stuck else ""),
+            self.V("returns-to-zero", "connections-left-open-after-clients-left" + (":at-capacity-no-future-pending" + self.reserve_tag() if stuck else ""),
                    {"open": [c.cid for c in open_], "nr_conns": w.nr_conns, "worker_connections": self.worker_connections})
         elif w.nr_conns != 0:
             self.V("returns-to-zero", "nr_conns-not-zero-at-quiescence", {"nr_conns": w.nr_conns})
